@@ -129,10 +129,10 @@ Proof.
 Qed.
 
 (** ** the routing returns a correct per-column solver *)
-Lemma is_pd_pred_sq a n :
+Lemma is_positive_definite_sq a n :
   (n * n)%nat = length a ->
-  is_pd_pred RO a = Some (is_symmetric_rel_rows RO (unflatten a n n) n && diag_positive_rows RO (unflatten a n n) n).
-Proof. intros Hn. unfold is_pd_pred. rewrite <- Hn, is_square_sq. reflexivity. Qed.
+  is_positive_definite RO a = Some (is_symmetric_rows RO (unflatten a n n) n && diag_positive_rows RO (unflatten a n n) n).
+Proof. intros Hn. unfold is_positive_definite. rewrite <- Hn, is_square_sq. reflexivity. Qed.
 
 Lemma lu_route_ok a n :
   (n * n)%nat = length a -> lu_pivots_nonzero a n ->
@@ -147,12 +147,12 @@ Qed.
 
 Theorem factor_ok a n :
   (n * n)%nat = length a -> (0 < n)%nat ->
-  (is_pd_pred RO a = Some true -> symmetric a n) -> lu_pivots_nonzero a n ->
+  (is_positive_definite RO a = Some true -> symmetric a n) -> lu_pivots_nonzero a n ->
   exists f, slice_factor RO a = Some f /\ solver_ok a n f.
 Proof.
   intros Hn Hpos Hsym Hpiv. unfold slice_factor.
-  pose proof (is_pd_pred_sq a n Hn) as Hpd.
-  destruct (is_symmetric_rel_rows RO (unflatten a n n) n && diag_positive_rows RO (unflatten a n n) n) eqn:E.
+  pose proof (is_positive_definite_sq a n Hn) as Hpd.
+  destruct (is_symmetric_rows RO (unflatten a n n) n && diag_positive_rows RO (unflatten a n n) n) eqn:E.
   - pose proof (try_cholesky_shape RO a) as Hsh. rewrite <- Hn, is_square_sq in Hsh.
     apply andb_true_iff in E. destruct E as [Es _]. rewrite Es in Hsh. destruct Hsh as [r Hr].
     destruct r as [l|].
@@ -165,7 +165,7 @@ Qed.
 (** ** the slice entry points *)
 Theorem solve_correct a b n :
   (n * n)%nat = length a -> (0 < n)%nat -> length b = n ->
-  (is_pd_pred RO a = Some true -> symmetric a n) -> lu_pivots_nonzero a n ->
+  (is_positive_definite RO a = Some true -> symmetric a n) -> lu_pivots_nonzero a n ->
   exists x, slice_solve RO a b = Some x /\ solves a n x b.
 Proof.
   intros Hn Hpos Hb Hsym Hpiv.
@@ -186,7 +186,7 @@ Qed.
 
 Theorem solve_sys_correct a b n k :
   (n * n)%nat = length a -> (0 < n)%nat -> length b = (n * k)%nat ->
-  (is_pd_pred RO a = Some true -> symmetric a n) -> lu_pivots_nonzero a n ->
+  (is_positive_definite RO a = Some true -> symmetric a n) -> lu_pivots_nonzero a n ->
   exists X, slice_solve_sys RO a b = Some X /\ solves_sys a n k X b.
 Proof.
   intros Hn Hpos Hb Hsym Hpiv.
@@ -211,7 +211,7 @@ Qed.
 
 Theorem invert_correct a n :
   (n * n)%nat = length a -> (0 < n)%nat ->
-  (is_pd_pred RO a = Some true -> symmetric a n) -> lu_pivots_nonzero a n ->
+  (is_positive_definite RO a = Some true -> symmetric a n) -> lu_pivots_nonzero a n ->
   exists X, slice_invert RO a = Some X /\ is_right_inverse a n X.
 Proof.
   intros Hn Hpos Hsym Hpiv.
@@ -297,7 +297,7 @@ Qed.
     [Matrix::solve] returns *)
 Theorem solve_agrees_with_matrix_solve a b n (m : matrix (T:=R)) :
   (n * n)%nat = length a -> (0 < n)%nat -> length b = n ->
-  (is_pd_pred RO a = Some true -> symmetric a n) -> nonsingular a n ->
+  (is_positive_definite RO a = Some true -> symmetric a n) -> nonsingular a n ->
   m = {| nr := n; nc := n; dat := a |} ->
   exists x, slice_solve RO a b = Some x /\ mat_solve_vec RO m b = Some x /\ solves a n x b.
 Proof.
@@ -443,7 +443,7 @@ Qed.
 
 Theorem solve_sys_agrees_with_matrix_solve a b n k :
   (n * n)%nat = length a -> (0 < n)%nat -> (0 < k)%nat -> length b = (n * k)%nat ->
-  (is_pd_pred RO a = Some true -> symmetric a n) -> nonsingular a n ->
+  (is_positive_definite RO a = Some true -> symmetric a n) -> nonsingular a n ->
   exists X, slice_solve_sys RO a b = Some X /\
             mat_solve_mat RO {| nr := n; nc := n; dat := a |} {| nr := n; nc := k; dat := b |}
               = Some {| nr := n; nc := k; dat := X |} /\
@@ -472,7 +472,7 @@ Qed.
 
 Theorem invert_agrees_with_matrix_inv a n :
   (n * n)%nat = length a -> (0 < n)%nat ->
-  (is_pd_pred RO a = Some true -> symmetric a n) -> nonsingular a n ->
+  (is_positive_definite RO a = Some true -> symmetric a n) -> nonsingular a n ->
   exists X, slice_invert RO a = Some X /\
             mat_inv RO {| nr := n; nc := n; dat := a |} = Some {| nr := n; nc := n; dat := X |} /\
             is_right_inverse a n X.
